@@ -22,6 +22,8 @@ func main() {
 		runScript(id, f.Seed, -1-i, &fixedScripts[i], cf, meta)
 		id++
 	}
+	reproFlushTimer(id, f.Seed, f.Out, cf, meta)
+	id++
 	nScripts := f.Count(300, 20000)
 	for i := 0; i < nScripts; i++ {
 		runScript(id, f.Seed, i, nil, cf, meta)
